@@ -7,13 +7,10 @@
       "This prime is: 2^8192 - 2^8128 - 1 + 2^64 * { [2^8062 pi] + 4743158 }"  (group 18)
       "The generator is: 2."
 
-    [x] is the integer part ([Int_part] of the Coq standard library of real numbers, [PI] its constant pi). *)
-From Coq Require Import ZArith Reals List.
+    [x] is the integer part; the formula itself is in Rfc3526Formula.v (it needs the real numbers). *)
+From Coq Require Import ZArith List.
 Import ListNotations.
 Open Scope Z_scope.
-
-Definition rfc3526_prime (n c : Z) : Z :=
-  2 ^ n - 2 ^ (n - 64) - 1 + 2 ^ 64 * (Int_part (PI * IZR (2 ^ (n - 130))) + c).
 
 (** group number -> (bits n, constant c) *)
 Definition rfc3526_groups : list (Z * (Z * Z)) :=
